@@ -152,32 +152,48 @@ def rule_b_xml_tags_agree(repo: Repo, rep: Report) -> None:
     pt = xm.func("parseTerm")
     rep.analysed("rdflib/plugins/sparql/results/xmlresults.py:SPARQLXMLWriter.write_binding", "rdflib/plugins/sparql/results/xmlresults.py:parseTerm")
 
-    def qname(fn: ast.AST, ns: ast.expr, local: ast.expr):
-        """ElementTree's spelling {namespace}local of a SAX name (namespace, local); None when it is not constant"""
-        hidden = H.local_names(fn)
-        loc = H.fold_text(repo, xm, local, hidden)
+    def qname(fn: ast.AST, ns: ast.expr, local: ast.expr, env=None):
+        """ElementTree's spelling {namespace}local of a SAX name (namespace, local) written inside fn, whose parameters and
+        table names stand for what env says; None when it is not constant"""
+        ns, local = H.close(ns, env or {}, H.local_names(fn)), H.close(local, env or {}, H.local_names(fn))
+        loc = H.fold_text(repo, xm, local)
         if loc is None:
             return None
         if isinstance(ns, ast.Constant) and ns.value is None:
             return loc
-        n_ = H.fold_text(repo, xm, ns, hidden)
+        n_ = H.fold_text(repo, xm, ns)
         return None if n_ is None else "{%s}%s" % (n_, loc)
+
+    def sax_name(fn: ast.AST, e: ast.expr, env=None):
+        """the SAX name (namespace, local) that the expression e denotes: a pair written in place, or a name that stands for one
+        (a module-level constant, a parameter bound to one by the caller)"""
+        pair = H.constant_tuple(repo, xm, H.close(e, env or {}, H.local_names(fn)))
+        return qname(fn, pair[0], pair[1]) if pair is not None and len(pair) == 2 else None
 
     def local_of(q):
         return q.rsplit("}", 1)[-1] if isinstance(q, str) else q
 
+    # The writer's dispatch on the class of the term: found from the public write_binding, in it or in the functions of the module
+    # it hands the term to (vlib.h_c16.dispatch_arms).  What an arm writes is what the calls it reaches write (reached_calls): the
+    # element may be opened in place or by a helper that is given the tag.
     vv = wb.args.args[2].arg
     wx = {}
     wattrs = set()
-    for cls, code in _isinstance_arms(repo, xm, wb, vv):
-        nodes = [x for s in code for x in ast.walk(s)]
+    for arm in H.dispatch_arms(repo, xm, wb, vv, follow=True):
+        cls = arm.cls
+        for c, cenv, cfn in H.reached_calls(xm, arm.body, arm.env, arm.fn):
+            if isinstance(c.func, ast.Attribute) and c.func.attr == "startElementNS" and c.args:
+                wx[cls] = sax_name(cfn, c.args[0], cenv)
+        if cls != "Literal":
+            continue
+        nodes = [x for s in H.arm_code(xm, arm) for x in ast.walk(s)]
         attr_dicts = {norm(c.args[0]) for c in nodes if isinstance(c, ast.Call) and norm(c.func).endswith("AttributesNSImpl") and c.args and isinstance(c.args[0], ast.Name)}
         for n in nodes:
-            if isinstance(n, ast.Call) and isinstance(n.func, ast.Attribute) and n.func.attr == "startElementNS" and n.args and isinstance(n.args[0], ast.Tuple) and len(n.args[0].elts) == 2:
-                wx[cls] = qname(wb, n.args[0].elts[0], n.args[0].elts[1])
-            if cls == "Literal" and isinstance(n, ast.Assign) and isinstance(n.targets[0], ast.Subscript) and norm(n.targets[0].value) in attr_dicts \
-                    and isinstance(n.targets[0].slice, ast.Tuple) and len(n.targets[0].slice.elts) == 2:
-                wattrs.add(qname(wb, n.targets[0].slice.elts[0], n.targets[0].slice.elts[1]) or norm(n.targets[0].slice))
+            if isinstance(n, ast.Assign) and isinstance(n.targets[0], ast.Subscript) and norm(n.targets[0].value) in attr_dicts:
+                key = n.targets[0].slice
+                pair = H.constant_tuple(repo, xm, key)
+                if pair is not None and len(pair) == 2:
+                    wattrs.add(qname(xm.tree, pair[0], pair[1]) or norm(key))
     rx = {}
     rattrs = set()
     elem = pt.args.args[0].arg
@@ -260,9 +276,41 @@ def rule_d_sax_characters_get_str(repo: Repo, rep: Report) -> None:
                 lit_arm = arm == "Literal"
                 # an argument that the type checker knows to be exactly `str` (e.g. a piece of str(val).split(...)) is not a Literal either
                 plain_str = tf is not None and not tf.any and set(tf.items) == {"builtins.str"}
-                ok = wrapped or plain_str or not (may_lit or lit_arm)
+                ok = wrapped or plain_str or not ((may_lit and not _narrowed_away_from_literal(repo, xm, f, c, a)) or lit_arm)
                 rep.ob("C16.d-sax-characters-get-str", xm, q, c, ok,
                        "plain str / non-literal term" if ok else "a Literal is handed to characters(): Literal(0) / Literal(False) / Literal('') are falsy and written as empty content", node=c)
+
+
+def _narrowed_away_from_literal(repo: Repo, mod, f: ast.AST, call: ast.Call, a: ast.expr) -> bool:
+    """The argument `a` of `call` is a name that an isinstance test around the call narrows to classes none of which is
+    Literal, a subclass or a superclass of it - also where the type checker does not follow the narrowing: the class tested
+    is a loop name over a constant table of classes (`for K, tag in TABLE: if isinstance(val, K): ..characters(val)`), every
+    row of which is then looked at (vlib.h_c16.dispatch_arms).  The name is not bound again inside the arm."""
+    from vlib import h_c16 as H
+
+    if not isinstance(a, ast.Name):
+        return False
+    try:
+        arms = [arm for arm in H.dispatch_arms(repo, mod, f, a.id) if any(call is x for s in arm.body for x in ast.walk(s))]
+    except AnalysisError:
+        return False
+    if not arms:
+        return False
+    # the innermost test around the call decides; all its rows count
+    inner = min(arms, key=lambda arm: sum(1 for s in arm.body for _ in ast.walk(s)))
+    arms = [arm for arm in arms if arm.test is inner.test]
+    if any(a.id in H.bound_in(s) for arm in arms for s in arm.body):
+        return False
+    imps = H.imports(mod)
+    lit = "rdflib.term.Literal"
+    for arm in arms:
+        name = arm.cls
+        full = "%s.%s" % imps[name] if name in imps else ("%s.%s" % (mod.name, name) if isinstance(mod.defs.get(name), ast.ClassDef) else None)
+        if full is None or full not in repo.typed.classes:
+            return False  # a class the analysis does not know: it may be (a relative of) Literal
+        if full == lit or lit in repo.typed.mro(full) or full in repo.typed.mro(lit):
+            return False
+    return True
 
 
 # ------------------------------------------------------------------------------------------------------------------ (e)
@@ -356,10 +404,21 @@ def rule_h_xml_datatype_written_when_present(repo: Repo, rep: Report) -> None:
     rep.rule("C16.h-xml-datatype-written-when-present",
              "write_binding adds the datatype attribute under a test of the literal's datatype alone (`val.datatype` / `is not None`), not depending on "
              "which datatype it is: the reader builds an untyped literal whenever the attribute is absent", floor=1)
+    from vlib import h_c16 as H
+
     wb = xm.func("SPARQLXMLWriter.write_binding")
     nd = 0
-    for n in ast.walk(wb):
-        if isinstance(n, ast.If) and any(isinstance(a, ast.Assign) and isinstance(a.targets[0], ast.Subscript) and "datatype" in norm(a.targets[0].slice) for a in n.body):
+
+    def names_datatype(key: ast.expr) -> bool:
+        """the key under which the attribute is stored denotes the name `datatype`: written in place, or a module-level constant"""
+        if "datatype" in norm(key):
+            return True
+        pair = H.constant_tuple(repo, xm, key) if isinstance(key, ast.Name) else None
+        return pair is not None and any(H.fold_text(repo, xm, x) == "datatype" for x in pair)
+
+    # what write_binding does is what it and the functions of the module it calls do (vlib.h_c16.reached_code)
+    for n in [x for d in H.reached_code(xm, [wb], xm.cls("SPARQLXMLWriter")) for x in ast.walk(d)]:
+        if isinstance(n, ast.If) and any(isinstance(a, ast.Assign) and isinstance(a.targets[0], ast.Subscript) and names_datatype(a.targets[0].slice) for a in n.body):
             nd += 1
             t = n.test
             simple = (isinstance(t, ast.Attribute) and t.attr == "datatype") or (
@@ -416,16 +475,22 @@ def run(repo: Repo, rep: Report) -> None:  # noqa: F811
     rep.ob("C16.j-carriage-return-as-character-reference", xw, "XMLWriter.text", "escape(text, %s) with '\\r' -> '&#13;'" % ent, ok,
            "" if ok else "XMLWriter.text no longer escapes CR", node=tf)
     xr = repo.mod("rdflib.plugins.sparql.results.xmlresults")
+    from vlib import h_c16 as H
+
+    # the code that writes a literal: the Literal arm of the writer's dispatch on the class of the term, found from the public
+    # write_binding - in it or in a function of the module it hands the term to - with what the arm calls in the module
     wb = xr.func("SPARQLXMLWriter.write_binding")
-    lit = [n for n in own_nodes(wb) if isinstance(n, ast.If) and "isinstance" in norm(n.test) and "Literal" in norm(n.test)]
+    lit = [a for a in H.dispatch_arms(repo, xr, wb, wb.args.args[2].arg, follow=True) if a.cls == "Literal"]
     if not lit:
         raise AnalysisError("write_binding: literal branch not found")
-    body_consts = [c.value for s in lit[0].body for c in ast.walk(s) if isinstance(c, ast.Constant) and isinstance(c.value, str)]
-    raw = [c for s in lit[0].body for c in ast.walk(s) if isinstance(c, ast.Call) and isinstance(c.func, ast.Attribute) and c.func.attr == "characters"]
-    ok = "&#13;" in body_consts and "\r" in body_consts
-    rep.ob("C16.j-carriage-return-as-character-reference", xr, "SPARQLXMLWriter.write_binding", raw[0] if raw else "literal text written", ok,
-           "CR is split off and written as &#13;" if ok else
-           "the literal's text goes to XMLGenerator.characters() with its carriage returns raw: Literal('x\\ry') is read back as Literal('x\\ny') by every conforming XML parser", node=raw[0] if raw else lit[0])
+    for arm in lit:
+        code = H.arm_code(xr, arm)
+        body_consts = [c.value for s in code for c in ast.walk(s) if isinstance(c, ast.Constant) and isinstance(c.value, str)]
+        raw = [c for s in code for c in ast.walk(s) if isinstance(c, ast.Call) and isinstance(c.func, ast.Attribute) and c.func.attr == "characters"]
+        ok = "&#13;" in body_consts and "\r" in body_consts
+        rep.ob("C16.j-carriage-return-as-character-reference", xr, "SPARQLXMLWriter.write_binding", raw[0] if raw else "literal text written", ok,
+               "CR is split off and written as &#13;" if ok else
+               "the literal's text goes to XMLGenerator.characters() with its carriage returns raw: Literal('x\\ry') is read back as Literal('x\\ny') by every conforming XML parser", node=raw[0] if raw else arm.test)
 
 
 _run_base2 = run
@@ -598,28 +663,17 @@ def rule_n_reader_keeps_every_row(repo: Repo, rep: Report) -> None:
                     bad += [t for t, ng in _branch_tests(mod, s, loop, taken=True) if H.names_in(t) & row_names and not is_record_skip(t, ng)]
                 rep.ob(RULE, mod, q, c, not bad, "unconditional in the row loop" if not bad else
                        "the row is added only under `%s`: a row in which no variable is bound is dropped by the reader" % norm(bad[0])[:80], node=c)
-                # skipped empty records
-                for s in jumps:
-                    if not isinstance(s, ast.Continue):
+                # skipped empty records: every way in which a pass of the row loop does not reach the append (a `continue` is taken, or
+                # an `if` around the append goes the other way - vlib.h_c16.skip_ways) and on which the record is known to be empty
+                feeding = {x for x in _feeds(loop, row_names | H.names_in(c.args[0])) if x in records or x not in row_names}
+                for w in H.skip_ways(mod, c, loop, f):
+                    if not H.empty_record_leaves(w, variant, feeding):
                         continue
-                    tests = H.guard_tests(mod, s, loop)
-                    empt = []
-                    for t in tests:
-                        for leaf in truthy.tested_exprs(t):
-                            if isinstance(leaf, ast.Compare) and len(leaf.ops) == 1 and isinstance(leaf.ops[0], (ast.Eq, ast.NotEq)):
-                                sides = [leaf.left, leaf.comparators[0]]
-                                if any(isinstance(x, ast.Constant) and x.value in ("", b"") for x in sides) and any(H.names_in(x) & variant for x in sides):
-                                    empt.append(leaf)
-                            elif isinstance(leaf, ast.Name) and leaf.id in variant and (leaf.id in records or leaf.id not in row_names):
-                                # `if not line: continue` - a record name, i.e. one that (transitively) feeds the appended row
-                                if leaf.id in _feeds(loop, row_names | H.names_in(c.args[0])):
-                                    empt.append(leaf)
-                    if not empt:
-                        continue
-                    looks = any(_looks_at_var_count(t, var_count_names) for t in tests)
-                    rep.ob(RULE, mod, q, "skip of an empty record: if %s: continue" % " / ".join(norm(t) for t in tests)[:120], looks,
+                    looks = any(_looks_at_var_count(l, var_count_names) for l, _ng in w.leaves)  # on this way, a conjunct on the number of variables holds too
+                    how = "if %s: continue" if isinstance(w.where, ast.Continue) else "the row is passed over if %s"
+                    rep.ob(RULE, mod, q, "skip of an empty record: " + how % w.text()[:120], looks,
                            "only when the table does not have exactly one variable" if looks else
-                           "an empty record is skipped whatever the number of variables: in a one-variable table the empty line is the row that leaves the variable unbound, it is lost", node=s)
+                           "an empty record is skipped whatever the number of variables: in a one-variable table the empty line is the row that leaves the variable unbound, it is lost", node=w.where)
 
 
 def _var_count_names(f: ast.AST) -> set:
@@ -745,7 +799,7 @@ def rule_p_no_codecs_reader_under_line_consumer(repo: Repo, rep: Report) -> None
     RULE = "C16.p-no-codecs-reader-under-line-consumer"
     rep.rule(RULE,
              "in the record readers (TSV/CSV results, N-Triples/N-Quads) nothing that may be a codecs stream reader (codecs.getreader(enc)(src), codecs.open, "
-             "codecs.StreamReader, <CodecInfo>.streamreader) is consumed line-wise - .readline(), .readlines(), iteration, next(), csv.reader(src): StreamReader.readline "
+             "codecs.StreamReader, <CodecInfo>.streamreader) is consumed line-wise - .readline(), .readlines() (called, or handed on as a bound method: iter(src.readline, '')), iteration, next(), csv.reader(src): StreamReader.readline "
              "splits with str.splitlines(), i.e. also at VT, FF, FS/GS/RS, NEL, LS, PS, so the row '\"a\\u2028b\"' is cut in two (reading it with .read(n) is fine)", floor=3)
     CODECS_CTORS = ("open", "StreamReader", "StreamReaderWriter", "EncodedFile")
     for name in (RESULTS_PKG + "tsvresults", RESULTS_PKG + "csvresults", "rdflib.plugins.parsers.ntriples", "rdflib.plugins.parsers.nquads"):
@@ -813,10 +867,16 @@ def rule_p_no_codecs_reader_under_line_consumer(repo: Repo, rep: Report) -> None
             selfname = f.args.args[0].arg if f.args.args else None
             for n in own_nodes(f):
                 src, how, always = None, "", False
-                if isinstance(n, ast.Call) and isinstance(n.func, ast.Attribute) and n.func.attr in ("readline", "readlines", "__next__", "__iter__"):
-                    if isinstance(n.func.value, ast.Name) and n.func.value.id == selfname and isinstance(cls, ast.ClassDef):
+                if isinstance(n, ast.Attribute) and isinstance(n.ctx, ast.Load) and n.attr in ("readline", "readlines", "__next__", "__iter__"):
+                    # the line-wise read of <src>: the method called in place - <src>.readline() - or taken as a value that something
+                    # else calls - iter(<src>.readline, ""), map(..), an alias: whoever calls it reads <src> line-wise
+                    if isinstance(n.value, ast.Name) and n.value.id == selfname and isinstance(cls, ast.ClassDef):
                         continue  # a method of the reader class itself (own or inherited), not a file
-                    src, how, always = n.func.value, "." + n.func.attr + "()", n.func.attr.startswith("readline")
+                    par = mod.parent.get(id(n))
+                    called = isinstance(par, ast.Call) and par.func is n
+                    src, how, always = n.value, "." + n.attr + ("()" if called else " (the bound method, handed on)"), n.attr.startswith("readline")
+                    if called:
+                        n = par
                 elif isinstance(n, ast.Call) and norm(n.func).split(".")[-1] in ("reader", "DictReader") and (norm(n.func).startswith("csv.") or imps.get(norm(n.func), ("", ""))[0] == "csv") and n.args:
                     src, how, always = n.args[0], "csv.%s(...)" % norm(n.func).split(".")[-1], True
                 elif isinstance(n, ast.Call) and norm(n.func) in ("next", "iter", "list", "enumerate") and n.args:
@@ -1454,48 +1514,40 @@ def rule_y_table_without_variables(repo: Repo, rep: Report) -> None:
             def is_count(e: ast.AST) -> bool:
                 return (isinstance(e, ast.Call) and norm(e.func) == "len" and len(e.args) == 1 and is_vars(e.args[0])) or (isinstance(e, ast.Name) and e.id in counts)
 
-            for s in own_nodes(f):
-                if not isinstance(s, ast.Continue):
+            # the ways in which a pass of the row loop does not reach the statement that records the row (a `continue` is taken, or an
+            # `if` around that statement goes the other way - vlib.h_c16.skip_ways), on which the record is known to be empty
+            seen_ways: set = set()
+            for a in own_nodes(f):
+                if not (isinstance(a, ast.Call) and isinstance(a.func, ast.Attribute) and a.func.attr == "append"
+                        and isinstance(a.func.value, ast.Attribute) and a.func.value.attr == "bindings"):
                     continue
-                loop = H.innermost_loop(mod, s, f)
-                appends = [a for a in ast.walk(loop) if isinstance(a, ast.Call) and isinstance(a.func, ast.Attribute) and a.func.attr == "append"
-                           and isinstance(a.func.value, ast.Attribute) and a.func.value.attr == "bindings" and H.innermost_loop(mod, a, f) is loop] if loop is not None else []
-                if not appends:
+                loop = H.innermost_loop(mod, a, f)
+                if loop is None:
                     continue
                 variant = H.bound_in(loop)
-                leaves: list = []
-                child: ast.AST = s
-                for p in mod.parents(s):
-                    if p is loop:
-                        break
-                    if isinstance(p, ast.If):
-                        if any(child is x for x in p.body):
-                            leaves += list(_and_leaves(p.test))
-                        else:
-                            # the else branch: what is known there are the conjuncts of `not test` (nothing, when that is a disjunction)
-                            for l, ng in H.conj_leaves(p.test, True) or []:
-                                leaves.append(ast.copy_location(ast.UnaryOp(op=ast.Not(), operand=l), l) if ng else l)
-                    child = p
-                empt = [l for l in leaves if (isinstance(l, ast.Compare) and len(l.ops) == 1 and isinstance(l.ops[0], ast.Eq)
-                                              and any(isinstance(x, ast.Constant) and x.value in ("", b"") for x in (l.left, l.comparators[0]))
-                                              and any(H.names_in(x) & variant for x in (l.left, l.comparators[0])))
-                        or (isinstance(l, ast.UnaryOp) and isinstance(l.op, ast.Not) and isinstance(l.operand, ast.Name) and l.operand.id in variant)]
-                if not empt:
-                    continue
-                n2 += 1
-                cnt = [l for l in leaves if isinstance(l, ast.Compare) and any(is_count(x) for x in [l.left] + l.comparators)]
-                verdicts = {}
-                for nvars in (0, 1):
-                    vals = [H.eval_count_test(l, is_count, nvars) for l in cnt]
-                    if any(v is None for v in vals):
-                        raise AnalysisError("%s:%s: the test on the number of variables `%s` is not a comparison with integer constants" % (mod.rel, q, " and ".join(norm(l) for l in cnt)[:80]))
-                    verdicts[nvars] = bool(cnt) and not all(vals)  # the skip cannot happen
-                ok = verdicts[0] and verdicts[1]
-                lost = [k for k in (0, 1) if not verdicts[k]]
-                rep.ob(RULE, mod, q, "skip of an empty record: if %s: continue" % " and ".join(norm(l) for l in leaves)[:120], ok,
-                       "never in a table with 0 or 1 variable" if ok else
-                       "an empty record is skipped in a table with %s variable(s), where the empty line is a row: %s" % (
-                           " or ".join(str(k) for k in lost), "'\\n\\n' (SELECT * {} with one solution) is read as a table without rows" if 0 in lost else "'?x\\n\\n' loses the row that leaves ?x unbound"), node=s)
+                # names of the loop that can hold the record: not the row that is recorded and what is computed from it (rule n's)
+                row_names = H.derived_names(loop, H.names_in(a.args[0]) & variant) if a.args else set()
+                holders = (variant - row_names) | (H.record_names(loop) & variant)
+                for w in H.skip_ways(mod, a, loop, f):
+                    key = (id(w.where), tuple((id(l), ng) for l, ng in w.leaves))
+                    if key in seen_ways or not H.empty_record_leaves(w, variant, holders):
+                        continue
+                    seen_ways.add(key)
+                    n2 += 1
+                    cnt = [(l, ng) for l, ng in w.leaves if isinstance(l, ast.Compare) and any(is_count(x) for x in [l.left] + l.comparators)]
+                    verdicts = {}
+                    for nvars in (0, 1):
+                        vals = [H.eval_count_test(l, is_count, nvars) for l, _ng in cnt]
+                        if any(v is None for v in vals):
+                            raise AnalysisError("%s:%s: the test on the number of variables `%s` is not a comparison with integer constants" % (mod.rel, q, " and ".join(norm(l) for l, _ng in cnt)[:80]))
+                        verdicts[nvars] = bool(cnt) and not all(v != ng for v, (_l, ng) in zip(vals, cnt))  # a conjunct is false: the skip cannot happen
+                    ok = verdicts[0] and verdicts[1]
+                    lost = [k for k in (0, 1) if not verdicts[k]]
+                    how = "if %s: continue" if isinstance(w.where, ast.Continue) else "the row is passed over if %s"
+                    rep.ob(RULE, mod, q, "skip of an empty record: " + how % w.text()[:120], ok,
+                           "never in a table with 0 or 1 variable" if ok else
+                           "an empty record is skipped in a table with %s variable(s), where the empty line is a row: %s" % (
+                               " or ".join(str(k) for k in lost), "'\\n\\n' (SELECT * {} with one solution) is read as a table without rows" if 0 in lost else "'?x\\n\\n' loses the row that leaves ?x unbound"), node=w.where)
     if n1 == 0:
         raise AnalysisError("no <x>.vars = <HEADER>.parse_string(...) in the result readers")
     if n2 == 0:
